@@ -106,6 +106,12 @@ type Eng struct {
 	tagTypes   map[string]types.Type
 	implDone   map[string]bool
 	missingLoops []int
+	localChans   []localChan
+}
+
+type localChan struct {
+	ref T
+	in  *ssa.MakeChan
 }
 
 type retEdge struct {
@@ -137,6 +143,7 @@ func (e *Eng) reset() {
 	e.sendCount = map[string]int{}
 	e.ownMods = nil
 	e.missingLoops = nil
+	e.localChans = nil
 	e.tagTypes = map[string]types.Type{}
 	e.implDone = map[string]bool{}
 	if e.ifaceSeen == nil {
@@ -437,7 +444,8 @@ func (e *Eng) heapAxiom(name string, h T) T {
 func (e *Eng) havocAll(st *State, why string) {
 	names := e.sortedHeapNames()
 	for _, n := range names {
-		if n == "Alloc" || strings.HasPrefix(n, "G|holds_") || e.w.stableGlobal(n) {
+		if n == "Alloc" || strings.HasPrefix(n, "G|holds_") || strings.HasPrefix(n, "G|chan") || e.w.stableGlobal(n) {
+			// tokens and channel counters are ghost state of this function's own control flow
 			continue
 		}
 		st.heap[n] = e.heapAxiom(n, e.fresh("hv|"+n, e.heapNames[n]))
